@@ -17,7 +17,7 @@
 //       END
 //   CABLEMODEL n flat twist bend firstjoint(0 none|1 ball|2 free) geomtype(0 capsule|1 box|2 cylinder)
 //              otherfirst
-//     n x : pos[3] quat[4] size[3]
+//     n x : pos[3] quat[4] size[3] npre (type(2 slide|3 hinge) ref)*npre    scalar joints in front of the ball joint
 //     then commands:  REST | STATE qpos[nq] | END
 //   LS k[4] q[4] w0[3] pullback        direct call of LocalStress
 //   QUIT
@@ -251,8 +251,15 @@ static void cable_section() {
     for (int i = 0; i < 3; i++) body->pos[i] = rdbl();
     for (int i = 0; i < 4; i++) body->quat[i] = rdbl();
     double size[3]; for (int i = 0; i < 3; i++) size[i] = rdbl();
+    // scalar joints in front of the rotational joint (extensible / hinged segments): type (2 slide | 3 hinge) and ref
+    int npre = rint();
+    for (int k = 0; k < npre; k++) {
+      int pt = rint(); double ref = rdbl();
+      mjsJoint* pj = mjs_addJoint(body, NULL); pj->type = pt == 2 ? mjJNT_SLIDE : mjJNT_HINGE;
+      pj->axis[0] = pt == 2 ? 1 : 0; pj->axis[1] = pt == 2 ? 0 : 1; pj->axis[2] = 0; pj->ref = ref;
+    }
     int jt = (b == 0) ? firstjoint : 1;
-    if (jt) { mjsJoint* j = mjs_addJoint(body, NULL); j->type = jt == 1 ? mjJNT_BALL : mjJNT_FREE; }
+    if (jt && !(jt == 2 && npre)) { mjsJoint* j = mjs_addJoint(body, NULL); j->type = jt == 1 ? mjJNT_BALL : mjJNT_FREE; }
     mjsGeom* g = mjs_addGeom(body, NULL);
     g->type = geomtype == 0 ? mjGEOM_CAPSULE : geomtype == 1 ? mjGEOM_BOX : mjGEOM_CYLINDER;
     for (int i = 0; i < 3; i++) g->size[i] = size[i];
@@ -298,13 +305,15 @@ static void cable_section() {
       std::vector<mjtNum> jacr(3 * nv);
       for (int b = 0; b < cab->n; b++) {
         int i = cab->i0 + b;
-        mjtNum jq[4] = {1, 0, 0, 0};
-        if (m->body_jntnum[i] > 0) {
-          int qadr = m->jnt_qposadr[m->body_jntadr[i]] + m->body_dofnum[i] - 3;
-          mju_copy4(jq, d->qpos + qadr);
+        mjtNum jq[4] = {1, 0, 0, 0}, q0[4] = {1, 0, 0, 0};
+        // the rotational joint of the body, located by type (not by the plugin's address arithmetic)
+        for (int j = m->body_jntadr[i]; j >= 0 && j < m->body_jntadr[i] + m->body_jntnum[i]; j++) {
+          if (m->jnt_type[j] != mjJNT_BALL && m->jnt_type[j] != mjJNT_FREE) continue;
+          int qadr = m->jnt_qposadr[j] + (m->jnt_type[j] == mjJNT_FREE ? 3 : 0);
+          mju_copy4(jq, d->qpos + qadr); mju_copy4(q0, m->qpos0 + qadr);
         }
         mj_jacBody(m, d, NULL, jacr.data(), i);
-        printf("B %d bq", b); pv(m->body_quat + 4 * i, 4); printf(" jq"); pv(jq, 4);
+        printf("B %d bq", b); pv(m->body_quat + 4 * i, 4); printf(" jq"); pv(jq, 4); printf(" q0"); pv(q0, 4);
         printf(" k"); pv(cab->stiffness.data() + 4 * b, 4); printf(" w0"); pv(cab->omega0.data() + 3 * b, 3);
         printf(" xq"); pv(d->xquat + 4 * i, 4); printf(" stress"); pv(cab->stress.data() + 3 * b, 3);
         printf(" jacr"); pv(jacr.data(), 3 * nv); printf("\n");
